@@ -529,9 +529,20 @@ def main():
                              "reason": "corgi did not finish this program within the time limit of its chunk "
                                        "(the model evaluates it in milliseconds)"})
         elif d is not None:
-            failures.append({"case": i, "confirmed": True, "first_differing_instruction": d,
-                             "reason": "corgi and the model (the proven specification) differ at "
-                                       "instruction %d: %s" % (d, dsl.instr_to_text(c["instrs"][d])
+            kind = dsl.difference_kind(r, m, d)
+            # is the disagreement itself a failing input of THIS property?  For functional properties the
+            # model's output is the value the property demands; for relational ones (model_is_spec False)
+            # only structural disagreements (panics, dimensions, flags, counts) are, value disagreements are
+            # reported as a broken correspondence unless the property's own predicate fails too
+            confirmed = spec.get("model_is_spec", True) or (kind == "structural" and
+                                                            spec.get("structure_is_spec", True))
+            if not confirmed and kind == "value" and \
+                    dsl.differing_value_kinds(r, m, d) & set(spec.get("value_kinds_spec", [])):
+                confirmed = True
+            failures.append({"case": i, "confirmed": confirmed, "first_differing_instruction": d,
+                             "difference": kind,
+                             "reason": "corgi and the model (the proven specification) differ (%s) at "
+                                       "instruction %d: %s" % (kind, d, dsl.instr_to_text(c["instrs"][d])
                                                                if d < len(c["instrs"]) else "?")})
     extra_counts = {}
     t1 = time.time()
@@ -550,9 +561,13 @@ def main():
     violations = []
     known_hits = []
     seen_cases = set()
+    failures.sort(key=lambda f: (not f.get("confirmed", True)))
+    confirmed_cases = set(f["case"] for f in failures if f.get("confirmed", True))
     for f in failures:
         i = f["case"]
         c = cases[i]
+        if not f.get("confirmed", True) and i in confirmed_cases:
+            continue
         known = None
         for kf in findings:
             if kf["property"] == prop and props.KNOWN_CLASSES[kf["class"]](c, f, rust[i], model[i]):
